@@ -1,6 +1,7 @@
 package shutterservice
 
 import (
+	"bytes"
 	"context"
 	"math/big"
 
@@ -248,4 +249,66 @@ func H_C16_fetch_exact() {
 	} else {
 		vfReach("nothing-to-return")
 	}
+}
+
+// ---- reorg rollback: what the abandoned blocks left in the tables is removed, exactly ----
+
+//verif:stub (*github.com/shutter-network/rolling-shutter/rolling-shutter/keyperimpl/shutterservice/database.Queries).GetMultiEventSyncStatus sql=getMultiEventSyncStatus
+func vfStubGetStatus16(q *database.Queries, ctx context.Context) (database.MultiEventSyncStatus, error) {
+	if !vfTab.synced {
+		return database.MultiEventSyncStatus{}, pgx.ErrNoRows
+	}
+	return database.MultiEventSyncStatus{BlockNumber: vfTab.syncedTo, BlockHash: vfRollback.statusHash}, nil
+}
+
+//verif:stub (*github.com/shutter-network/rolling-shutter/rolling-shutter/keyperimpl/shutterservice/database.Queries).DeleteFiredTriggersFromBlockNumber sql=deleteFiredTriggersFromBlockNumber
+func vfStubDeleteFired16(q *database.Queries, ctx context.Context, from int64) error {
+	if vfTab.fired && vfTab.firedBlock >= from { // DELETE ... WHERE block_number >= $1
+		vfTab.fired = false
+	}
+	return nil
+}
+
+//verif:stub (*github.com/shutter-network/rolling-shutter/rolling-shutter/keyperimpl/shutterservice/database.Queries).DeleteEventTriggerRegisteredEventsFromBlockNumber sql=deleteEventTriggerRegisteredEventsFromBlockNumber
+func vfStubDeleteReg16(q *database.Queries, ctx context.Context, from int64) error {
+	if vfTab.registered && vfTab.regBlock >= from {
+		vfTab.registered = false
+	}
+	return nil
+}
+
+var vfRollback struct{ statusHash []byte }
+
+// The tables hold the Skolem trigger's registration row and fired row at arbitrary blocks up to
+// the synced block; a header arrives. If it reveals a reorg, exactly the rows of the blocks above
+// the rollback target are removed and the sync position is the target; otherwise nothing changes.
+func H_C16_reorg_rollback() {
+	t := &vfTab
+	*t = vfTablesT{synced: true, syncedTo: vfI64("synced-to")}
+	vfAssume(t.syncedTo >= 0 && t.syncedTo < 1<<40)
+	vfRollback.statusHash = vfBytesN("status.hash", 32)
+	t.registered, t.regBlock = vfBool("registered"), vfI64("reg.block")
+	t.fired, t.firedBlock = vfBool("fired"), vfI64("fired.block")
+	vfAssume(t.regBlock >= 0 && t.regBlock <= t.syncedTo && t.firedBlock >= 0 && t.firedBlock <= t.syncedTo)
+	pre := *t
+	header := &types.Header{Number: new(big.Int).SetUint64(vfU64("header.number")), ParentHash: vfAny[common.Hash]("header.parent")}
+	vfAssume(header.Number.Uint64() < 1<<40)
+	s := vfSyncer()
+	s.AssumedReorgDepth = 1 + vfLen("assumed-depth-minus-1", 4)
+	err := s.handlePotentialReorg(context.Background(), header)
+	vfAssert(err == nil, "rollback-succeeds")
+	isReorg := header.Number.Int64() == pre.syncedTo+1 && !bytes.Equal(header.ParentHash[:], vfRollback.statusHash)
+	if !isReorg {
+		vfAssert(*t == pre, "no-reorg-no-change")
+		vfReach("no-reorg")
+		return
+	}
+	target := pre.syncedTo - int64(s.AssumedReorgDepth)
+	if target < 0 {
+		target = 0
+	}
+	vfAssert(t.synced && t.syncedTo == target, "sync-position-is-the-rollback-target")
+	vfAssert(t.registered == (pre.registered && pre.regBlock <= target), "registrations-of-abandoned-blocks-removed-others-kept")
+	vfAssert(t.fired == (pre.fired && pre.firedBlock <= target), "fired-rows-of-abandoned-blocks-removed-others-kept")
+	vfReach("rolled-back")
 }
